@@ -199,7 +199,7 @@ prop(
 
 prop(
     "C14",
-    contract_modules=["contracts.c14"],
+    contract_modules=["contracts.c14", "contracts.c14py"],
     bcc="c14",
     level="other",
     claimed=False,
